@@ -11,7 +11,8 @@ Reading guide
 * `Lex.intCtor b s`     : `T(s)` for a class of the integer family with bounds `b`
 * `XSD.integerLex` etc. : the lexical spaces, by the grammar productions of the recommendation
 -/
-import EPV.Lemmas.LexicalInt
+import EPV.Lemmas.LexicalDbl
+import EPV.Lemmas.LexicalHex
 namespace EPV.C10
 open EPV EPV.LexLemmas
 
@@ -77,5 +78,214 @@ example : Lex.intIsValid ⟨some (-128), some 128⟩ "128".toList = false ∧
 
 /-- **canonical form of integers**: `str(int)` is the XSD canonical representation … -/
 theorem int_canon_eq_spec (v : Int) : Lex.intCanon v = XSD.integerCanon v := intCanon_eq v
+
+/-- **canon_fixed_point (integer)**: the canonical string re-parses to the same value, hence is a fixed
+point: `parse (canon v) = v ∧ canon (parse (canon v)) = canon v`. -/
+theorem int_canon_fixed_point (v : Int) :
+    Lex.intCtor ⟨none, none⟩ (Lex.intCanon v) = .ok v ∧
+    (match Lex.intCtor ⟨none, none⟩ (Lex.intCanon v) with
+      | .ok w => Lex.intCanon w = Lex.intCanon v
+      | .error _ => False) := by
+  rw [intCtor_intCanon]; exact ⟨rfl, rfl⟩
+
+/-! ## decimal -/
+
+/-- **ctor_iff_lexical (xs:decimal)**: the constructor succeeds exactly when the collapsed string is a
+decimalLexicalRep (XSD 1.1 Part 2 §3.3.3.1 [54]); … -/
+theorem dec_ctor_iff_lexical (s : List Char) :
+    Lex.decCtor s =
+      (if XSD.decimalLex (Lex.collapse s) then .ok (Lex.decOfLex (Lex.collapse s)) else .error .value) := by
+  unfold Lex.decCtor
+  simp only
+  rw [matchDecimal_eq _ (collapse_no_nl s)]
+
+/-- … and the Decimal it builds denotes the XSD value of the literal, with the same scale
+(`decimalLexicalMap`): numerator `±int(ip ++ fp)`, scale `len(fp)`. -/
+theorem dec_ctor_value (s : List Char) (d : Lex.PyDec) (h : Lex.decCtor s = .ok d) :
+    pyDecVal d = XSD.decimalVal (Lex.collapse s) := by
+  rw [dec_ctor_iff_lexical] at h
+  split at h
+  · rename_i hl
+    cases h
+    exact decOfLex_val _ hl
+  · cases h
+
+/-- PARTIAL (F10w): the same with XSD white space, for strings without Python-only white characters. -/
+theorem dec_ctor_iff_lexical_partial (s : List Char) (h : noPyOnlyWhite s = true) :
+    (Lex.decCtor s).toBool = XSD.decimalLex (XSD.wsCollapse s) := by
+  rw [dec_ctor_iff_lexical, collapse_eq_wsCollapse s h]
+  cases XSD.decimalLex (XSD.wsCollapse s) <;> rfl
+
+/-- F10w witness for xs:decimal (U+3000 IDEOGRAPHIC SPACE) -/
+theorem dec_ctor_fails_unicode_space :
+    (Lex.decCtor ['　', '1', '.', '5']).toBool = true ∧ XSD.decimalLex (XSD.wsCollapse ['　', '1', '.', '5']) = false := by
+  decide
+
+/-- PARTIAL (F10v): `is_valid` agrees with the constructor on whitespace-normal strings. -/
+theorem dec_is_valid_iff_ctor_partial (s : List Char) (hn : Lex.collapse s = s) :
+    Lex.decIsValid s = (Lex.decCtor s).toBool := by
+  unfold Lex.decIsValid Lex.decCtor
+  simp only [hn]
+  cases Lex.matchDecimal s <;> rfl
+
+/-- the fixes of F10d are visible in the model: inner spaces are not removed (tests on literals) -/
+example : (Lex.decCtor "1 2".toList).toBool = false ∧ (Lex.decCtor " +.50\t".toList).toBool = true ∧
+    (Lex.decCtor ".".toList).toBool = false ∧ (Lex.decCtor "5.".toList).toBool = true := by decide
+
+/-! ## double / float -/
+
+/-- class of the value denoted by a literal of the double lexical space (the finite value itself is the
+correctly rounded `float(literal)` of CPython — trusted) -/
+def specDblClass (t : List Char) : Lex.DblClass :=
+  if t == "NaN".toList then .nan
+  else if t == "INF".toList || t == "+INF".toList then .pinf
+  else if t == "-INF".toList then .ninf
+  else .num
+
+/-- **ctor_iff_lexical (xs:double, xs:float)**, for each XSD version: the constructor succeeds exactly when
+the collapsed string is a doubleRep (XSD 1.1 §3.3.5.2 [57]; under XSD 1.0 without `+INF`), and classifies
+the special values correctly. -/
+theorem dbl_ctor_iff_lexical (v : Lex.Ver) (s : List Char) :
+    Lex.dblCtor v s =
+      (if XSD.doubleLex (v != .v10) (Lex.collapse s) then .ok (specDblClass (Lex.collapse s))
+       else .error .value) := by
+  unfold Lex.dblCtor specDblClass XSD.doubleLex
+  simp only
+  rw [matchNumericLiteral_eq _ (collapse_no_nl s)]
+  generalize Lex.collapse s = t
+  by_cases h1 : t = ['N', 'a', 'N']
+  · subst h1; cases v <;> decide
+  by_cases h2 : t = ['I', 'N', 'F']
+  · subst h2; cases v <;> decide
+  by_cases h3 : t = ['-', 'I', 'N', 'F']
+  · subst h3; cases v <;> decide
+  by_cases h4 : t = ['+', 'I', 'N', 'F']
+  · subst h4; cases v <;> decide
+  have hs : XSD.specialRep (v != .v10) t = false := by
+    simp [XSD.specialRep, h1, h2, h3, h4]
+  simp only [hs, Bool.or_false]
+  simp [h1, h2, h3, h4]
+
+/-- PARTIAL (F10w): with XSD white space. -/
+theorem dbl_ctor_iff_lexical_partial (v : Lex.Ver) (s : List Char) (h : noPyOnlyWhite s = true) :
+    (Lex.dblCtor v s).toBool = XSD.doubleLex (v != .v10) (XSD.wsCollapse s) := by
+  rw [dbl_ctor_iff_lexical, collapse_eq_wsCollapse s h]
+  cases XSD.doubleLex (v != .v10) (XSD.wsCollapse s) <;> rfl
+
+/-- the pattern of `DoubleProxy` / `Float` (after the fix of F10a) is the XSD 1.1 lexical space on
+newline-free strings … -/
+theorem dbl_pattern_eq_lexical (s : List Char) (h : '\n' ∉ s) :
+    Lex.matchDouble s = XSD.doubleLex true s := by
+  unfold Lex.matchDouble XSD.doubleLex
+  rw [matchNumericLiteral_eq s h]
+  congr 1
+  unfold Lex.matchInfNaN XSD.specialRep
+  by_cases h1 : s = ['N', 'a', 'N']
+  · subst h1; decide
+  by_cases h2 : s = ['I', 'N', 'F']
+  · subst h2; decide
+  by_cases h3 : s = ['-', 'I', 'N', 'F']
+  · subst h3; decide
+  by_cases h4 : s = ['+', 'I', 'N', 'F']
+  · subst h4; decide
+  have hr : (s == "INF".toList || s == "-INF".toList || s == "NaN".toList || (true && s == "+INF".toList)) = false := by
+    simp [h1, h2, h3, h4]
+  rw [hr]
+  split
+  · rename_i r
+    have hr' : '\n' ∉ r := fun hm => h (by simp [hm])
+    rw [atEnd_of_no_nl r hr']
+    cases r with
+    | nil => exact absurd rfl h1
+    | cons _ _ => rfl
+  · split
+    · rename_i r heq
+      have hr' : '\n' ∉ r := by
+        intro hm
+        have : '\n' ∈ Lex.optSign s := by rw [heq]; simp [hm]
+        exact optSign_nl h this
+      rw [atEnd_of_no_nl r hr']
+      cases r with
+      | cons _ _ => rfl
+      | nil =>
+        exfalso
+        unfold Lex.optSign at heq
+        split at heq
+        · rename_i r2; cases heq; exact h4 rfl
+        · rename_i r2; cases heq; exact h3 rfl
+        · exact h2 heq
+    · rfl
+
+/-- … hence PARTIAL (F10v): `is_valid` agrees with the (version-less) constructor on whitespace-normal
+strings.  (`is_valid` knows no XSD version: under XSD 1.0 it still accepts '+INF'.) -/
+theorem dbl_is_valid_iff_ctor_partial (s : List Char) (hn : Lex.collapse s = s) :
+    Lex.dblIsValid s = (Lex.dblCtor .none s).toBool := by
+  have hnl : '\n' ∉ s := by rw [← hn]; exact collapse_no_nl s
+  rw [dbl_ctor_iff_lexical, hn]
+  unfold Lex.dblIsValid
+  rw [dbl_pattern_eq_lexical s hnl]
+  have : (Lex.Ver.none != Lex.Ver.v10) = true := by decide
+  rw [this]
+  cases XSD.doubleLex true s <;> rfl
+
+/-- version dependence and the fixed defects F10a / F10e (tests on literals) -/
+example : (Lex.dblCtor .v10 "+INF".toList).toBool = false ∧ Lex.dblCtor .v11 "+INF".toList = .ok .pinf ∧
+    (Lex.dblCtor .none "1_0".toList).toBool = false ∧ (Lex.dblCtor .none "-nan".toList).toBool = false ∧
+    Lex.dblCtor .none " -1.5E-7 ".toList = .ok .num ∧ Lex.dblIsValid "1.0".toList = true ∧
+    (Lex.dblCtor .none "1e".toList).toBool = false ∧ (Lex.dblCtor .none ".e1".toList).toBool = false := by decide
+
+/-! ## boolean -/
+
+/-- **ctor_iff_lexical (xs:boolean)** with the value: 'true' and '1' denote true (XSD 1.1 §3.3.2). -/
+theorem bool_ctor_iff_lexical (s : List Char) :
+    Lex.boolCtor s =
+      (if XSD.booleanLex (Lex.collapse s) then .ok (XSD.booleanVal (Lex.collapse s)) else .error .value) :=
+  boolCtor_eq s
+
+/-- PARTIAL (F10w) -/
+theorem bool_ctor_iff_lexical_partial (s : List Char) (h : noPyOnlyWhite s = true) :
+    Lex.boolCtor s =
+      (if XSD.booleanLex (XSD.wsCollapse s) then .ok (XSD.booleanVal (XSD.wsCollapse s)) else .error .value) := by
+  rw [boolCtor_eq, collapse_eq_wsCollapse s h]
+
+/-- PARTIAL (F10v) -/
+theorem bool_is_valid_iff_ctor_partial (s : List Char) (hn : Lex.collapse s = s) :
+    Lex.boolIsValid s = (Lex.boolCtor s).toBool := by
+  have hnl : '\n' ∉ s := by rw [← hn]; exact collapse_no_nl s
+  unfold Lex.boolIsValid
+  rw [matchBoolean_eq s hnl, boolCtor_eq, hn]
+  cases XSD.booleanLex s <;> rfl
+
+/-- **canon_fixed_point (boolean)** -/
+theorem bool_canon_fixed_point (b : Bool) :
+    Lex.boolCtor (if b then "true".toList else "false".toList) = .ok b := by
+  cases b <;> decide
+
+/-! ## hexBinary / base64Binary -/
+
+/-- the hexBinary pattern is the XSD lexical space hexOctet* (newline-free strings) -/
+theorem hex_pattern_eq_lexical (s : List Char) (h : '\n' ∉ s) : Lex.matchHex s = XSD.hexLex s :=
+  matchHex_eq s h
+
+/-- **hex codec**: decode ∘ encode = id over all octet lists (lower- and upper-case rendering). -/
+theorem hex_roundtrip (bs : List Lex.Byte) :
+    Lex.hexDecode (Lex.hexEncode bs) = some bs ∧ Lex.hexDecode (Lex.hexEncodeUpper bs) = some bs :=
+  ⟨hexDecode_hexEncode bs, hexDecode_hexEncodeUpper bs⟩
+
+/-- **base64 codec**: decode ∘ encode = id over all octet lists (RFC 4648 §4 with padding). -/
+theorem base64_roundtrip (bs : List Lex.Byte) : Lex.b64Decode (Lex.b64Encode bs) = some bs :=
+  b64Decode_b64Encode bs
+
+/-- **hex_base64_value_preserved**: casting xs:hexBinary → xs:base64Binary → xs:hexBinary (and the other way
+round) preserves the octets, for every octet list: the casts are `encoder(value.decode())`. -/
+theorem hex_base64_value_preserved (bs : List Lex.Byte) :
+    (Lex.castHexToB64 (Lex.hexEncode bs)).bind Lex.b64Decode = some bs ∧
+    (Lex.castB64ToHex (Lex.b64Encode bs)).bind Lex.hexDecode = some bs ∧
+    ((Lex.castHexToB64 (Lex.hexEncode bs)).bind Lex.castB64ToHex) = some (Lex.hexEncode bs) := by
+  simp [Lex.castHexToB64, Lex.castB64ToHex, hexDecode_hexEncode, b64Decode_b64Encode]
+
+/-- non-trivial instance (test on literals) -/
+example : Lex.b64Encode [65, 66, 67, 68] = "QUJDRA==".toList ∧ Lex.hexEncodeUpper [0, 255, 16] = "00FF10".toList := by
+  decide
 
 end EPV.C10
